@@ -409,13 +409,22 @@ func poseidonDrv(raw json.RawMessage, resp *drv.Response) error {
 				}
 			}
 		}
-		// the sponge on constant inputs (incl. the empty input)
-		for _, n := range []int{0, 1, 8, 9} {
+		// the sponge on constant inputs (incl. the empty input); variant 1: the constants are not canonical (value + k p, beyond 64 bits) -
+		// HashNoPad reduces its inputs first, also when a builder can do that on the host
+		for _, nv := range [][2]int{{0, 0}, {1, 0}, {8, 0}, {9, 0}, {3, 1}, {9, 1}} {
+			n := nv[0]
 			in := make([]*big.Int, n)
+			canon := make([]*big.Int, n)
 			for i := range in {
-				in[i] = new(big.Int).Sub(bigP, big.NewInt(int64(1+i)))
+				canon[i] = new(big.Int).Sub(bigP, big.NewInt(int64(1+i)))
+				in[i] = new(big.Int).Set(canon[i])
+				if nv[1] == 1 {
+					canon[i] = drv.RandBelow(rng, bigP)
+					k := []*big.Int{big.NewInt(1), big.NewInt(2), big.NewInt(3), pow2(33), new(big.Int).Sub(pow2(60), one)}[i%5]
+					in[i] = new(big.Int).Add(canon[i], new(big.Int).Mul(k, bigP))
+				}
 			}
-			want := o.GlHashNoPad(in)
+			want := o.GlHashNoPad(canon)
 			stage, err := solveOnBuilder("r1cs", nil, want, func(api frontend.API, _ []frontend.Variable) []frontend.Variable {
 				vs := make([]gl.Variable, n)
 				for i := range vs {
@@ -424,9 +433,117 @@ func poseidonDrv(raw json.RawMessage, resp *drv.Response) error {
 				h := poseidon.NewGoldilocksChip(api).HashNoPad(vs)
 				return []frontend.Variable{h[0].Limb, h[1].Limb, h[2].Limb, h[3].Limb}
 			})
-			resp.Count(fmt.Sprintf("glconst-hash/%d", n), false)
+			resp.Count(fmt.Sprintf("glconst-hash/%d/%d", n, nv[1]), false)
 			if err != nil {
-				resp.Violate("c09/hash-constants/"+stage, fmt.Sprintf("HashNoPad on %d constant inputs compiled with the real r1cs builder does not accept the reference output (%s: %s)", n, stage, firstLine(err)), map[string]any{"n": n})
+				resp.Violate("c09/hash-constants/"+stage, fmt.Sprintf("HashNoPad on %d constant inputs %v compiled with the real r1cs builder does not accept the reference output (%s: %s)", n, strsOf(in), stage, firstLine(err)), map[string]any{"n": n})
+			}
+		}
+	case "glreal":
+		// the permutation and the sponge on WITNESS inputs compiled with gnark's real builders (a builder manipulates linear expressions and
+		// may write a multiply-accumulate into the storage of an operand: nothing of that exists on the test engine)
+		for si := 0; si < 2; si++ {
+			st := make([]*big.Int, 12)
+			for i := range st {
+				st[i] = drv.RandBelow(rng, bigP)
+				if si == 0 && i%4 == 1 {
+					st[i] = glEdge()[rng.Intn(7)]
+				}
+			}
+			want := o.GlPerm(st)
+			for _, sys := range []string{"r1cs", "scs"} {
+				stage, err := solveOnBuilder(sys, st, want, func(api frontend.API, in []frontend.Variable) []frontend.Variable {
+					var s poseidon.GoldilocksState
+					for i := range s {
+						s[i] = gl.NewVariable(in[i])
+					}
+					out := poseidon.NewGoldilocksChip(api).Poseidon(s)
+					res := make([]frontend.Variable, 12)
+					for i := range res {
+						res[i] = out[i].Limb
+					}
+					return res
+				})
+				resp.Count(fmt.Sprintf("glreal/%s/%d/%v", sys, si, st[0]), false)
+				if err != nil {
+					resp.Violate("c09/perm-real/"+stage+" sys="+sys, fmt.Sprintf("Poseidon on the witness state %v compiled with the real %s builder does not accept the reference output (%s: %s)", strsOf(st), sys, stage, firstLine(err)), map[string]any{"state": strsOf(st)})
+				}
+			}
+		}
+		for _, n := range []int{3, 9} {
+			in := make([]*big.Int, n)
+			for i := range in {
+				in[i] = drv.RandBelow(rng, bigP)
+			}
+			want := o.GlHashNoPad(in)
+			for _, sys := range []string{"r1cs", "scs"} {
+				stage, err := solveOnBuilder(sys, in, want, func(api frontend.API, iv []frontend.Variable) []frontend.Variable {
+					vs := make([]gl.Variable, n)
+					for i := range vs {
+						vs[i] = gl.NewVariable(iv[i])
+					}
+					h := poseidon.NewGoldilocksChip(api).HashNoPad(vs)
+					return []frontend.Variable{h[0].Limb, h[1].Limb, h[2].Limb, h[3].Limb}
+				})
+				resp.Count(fmt.Sprintf("glreal-hash/%s/%d", sys, n), false)
+				if err != nil {
+					resp.Violate("c09/hash-real/"+stage+" sys="+sys, fmt.Sprintf("HashNoPad on %d witness inputs compiled with the real %s builder does not accept the reference output (%s: %s)", n, sys, stage, firstLine(err)), map[string]any{"n": n})
+				}
+			}
+		}
+	case "bnreal":
+		// BN254 Poseidon, the two-to-one compression and the sponge on witness inputs compiled with gnark's real builders
+		rm1 := new(big.Int).Sub(bigR, one)
+		states := [][]*big.Int{{big.NewInt(0), big.NewInt(0), big.NewInt(0), big.NewInt(0)}, {rm1, big.NewInt(0), big.NewInt(1), rm1}}
+		for i := 0; i < 2; i++ {
+			states = append(states, []*big.Int{drv.RandBelow(rng, bigR), drv.RandBelow(rng, bigR), drv.RandBelow(rng, bigR), drv.RandBelow(rng, bigR)})
+		}
+		for si, st := range states {
+			want := o.BnPerm(st)
+			for _, sys := range []string{"r1cs", "scs"} {
+				stage, err := solveOnBuilder(sys, st, want, func(api frontend.API, in []frontend.Variable) []frontend.Variable {
+					out := poseidon.NewBN254Chip(api).Poseidon(poseidon.BN254State{in[0], in[1], in[2], in[3]})
+					return []frontend.Variable{out[0], out[1], out[2], out[3]}
+				})
+				resp.Count(fmt.Sprintf("bnreal/%s/%d/%v", sys, si, st[0]), false)
+				if err != nil {
+					resp.Violate("c10/perm-real/"+stage+" sys="+sys, fmt.Sprintf("BN254 Poseidon(%v) compiled with the real %s builder does not accept the reference output (%s: %s)", strsOf(st), sys, stage, firstLine(err)), map[string]any{"state": strsOf(st)})
+				}
+			}
+		}
+		for i := 0; i < 3; i++ {
+			l, r := drv.RandBelow(rng, bigR), drv.RandBelow(rng, bigR)
+			if i == 0 {
+				l, r = big.NewInt(0), big.NewInt(0)
+			}
+			for _, sys := range []string{"r1cs", "scs"} {
+				stage, err := solveOnBuilder(sys, []*big.Int{l, r}, []*big.Int{o.BnTwoToOne(l, r)}, func(api frontend.API, in []frontend.Variable) []frontend.Variable {
+					return []frontend.Variable{poseidon.NewBN254Chip(api).TwoToOne(in[0], in[1])}
+				})
+				resp.Count(fmt.Sprintf("bnreal-2to1/%s/%v", sys, l), false)
+				if err != nil {
+					resp.Violate("c10/hash-real/"+stage+" fn=TwoToOne sys="+sys, fmt.Sprintf("TwoToOne(%v,%v) compiled with the real %s builder does not accept the reference output (%s: %s)", l, r, sys, stage, firstLine(err)), nil)
+				}
+			}
+		}
+		for _, n := range []int{0, 2, 3, 4, 12} {
+			in := make([]*big.Int, n)
+			for i := range in {
+				in[i] = drv.RandBelow(rng, bigP)
+			}
+			want := []*big.Int{o.RunPlan("bn", in, 1)[0], o.BnHashOrNoop(in)}
+			for _, sys := range []string{"r1cs", "scs"} {
+				stage, err := solveOnBuilder(sys, in, want, func(api frontend.API, iv []frontend.Variable) []frontend.Variable {
+					vs := make([]gl.Variable, n)
+					for i := range vs {
+						vs[i] = gl.NewVariable(iv[i])
+					}
+					chip := poseidon.NewBN254Chip(api)
+					return []frontend.Variable{chip.HashNoPad(vs), chip.HashOrNoop(vs)}
+				})
+				resp.Count(fmt.Sprintf("bnreal-hash/%s/%d", sys, n), false)
+				if err != nil {
+					resp.Violate("c10/hash-real/"+stage+" fn=HashNoPad/HashOrNoop sys="+sys, fmt.Sprintf("n=%d witness inputs compiled with the real %s builder: the reference outputs are not accepted (%s: %s)", n, sys, stage, firstLine(err)), map[string]any{"n": n})
+				}
 			}
 		}
 	case "bnperm":
